@@ -596,10 +596,14 @@ Array::Ptr LegacyTimePeriod::ScriptFunc(const TimePeriod::Ptr& tp, double begin,
 	if (ranges) {
 		tm tm_begin = Utility::LocalTime(begin);
 
-		// Always evaluate time periods for full days as their ranges are given per day.
+		// Always evaluate time periods for full days as their ranges are given per day. Start with the day before:
+		// one of its ranges may run past midnight (e.g. "22:00-06:00") into the requested region.
+		tm_begin.tm_mday--;
 		tm_begin.tm_hour = 0;
 		tm_begin.tm_min = 0;
 		tm_begin.tm_sec = 0;
+		tm_begin.tm_isdst = -1;
+		mktime(&tm_begin);
 		tm_begin.tm_isdst = -1;
 
 		// Helper to move a struct tm to midnight of the next day for the loop below.
@@ -640,7 +644,15 @@ Array::Ptr LegacyTimePeriod::ScriptFunc(const TimePeriod::Ptr& tp, double begin,
 					<< "In day definition '" << kv.first << "'.";
 #endif /* I2_DEBUG */
 
-				ProcessTimeRanges(kv.second, &reference, segments);
+				Array::Ptr daySegments = new Array();
+				ProcessTimeRanges(kv.second, &reference, daySegments);
+
+				// Skip what ended before the requested region, i.e. all of the day before that doesn't run into it.
+				ObjectLock dlock(daySegments);
+				for (const Dictionary::Ptr& segment : daySegments) {
+					if (segment->Get("end") > begin)
+						segments->Add(segment);
+				}
 			}
 		}
 	}
